@@ -52,6 +52,17 @@ CLAIMED['C16'] = ('FCSBytes, FCSReader, Gen_C01 (fault slices), MC_FCSReader',
     'Trusted: TLC, value parser, fault model as written in Gen_C01. Files keep the segment order HEADER, TEXT, sTEXT, DATA.',
     'DESIGN.md 3.1, 4 C16')
 
+CLAIMED['C17'] = ('FCSMeta, Gen_C17',
+    'TLA+ decision table over structured keyword states; environment actions enumerate the keyword-presence lattice; '
+    'TLC checks IllMeansAbsent/Precedence/StandardWins and dumps (scenario, expected attributes); each scenario is '
+    'rendered to a file and loaded by the real FCSData',
+    'Exhaustive over the product of keyword states (absent, every accepted format, ill-formed kinds) in two timing '
+    'sub-products plus the detector/channel groups on channels 1,2,10,12 of a 12-channel file; every point is loaded and '
+    'every derived attribute compared with the specification (rationals vs floats to 1e-12).',
+    'Trusted: TLC, value parser, rendering tables (abstract state -> keyword text) in conf_C17.py. Python spellings '
+    'outside the rendering tables are not claimed.',
+    'DESIGN.md 3.1, 4 C17')
+
 NOT_APPLICABLE = {
     'C09': 'continuum numerics only (L-BFGS-B recovery of real parameters, real-analytic identities of closures): no '
            'state, history or case analysis for a TLA+ specification to enumerate; discrete fragment (Fit refuses <3 '
